@@ -110,16 +110,21 @@ def replay_case(env, res, case):
 def static_steps(prog):
     for pipe in prog['pipes']:
         for g, steps in pipe['groups']:
-            for st in steps or []:
-                yield pipe['name'], g, st
+            for st in flow_impl.steps_of(steps):
+                if not flow_impl.is_item(st):
+                    yield pipe['name'], g, st
 
 
 def can_fail(prog):
     """Conservative: could any error originate in this program?"""
     txt = json.dumps(prog)
     if any(x in txt for x in ('fails', 'failRest', 'failIf', 'nomodule', 'nokey', 'nogroup', 'nopipe', 'FAIL',
-                              '"bad"', 'nochildkey', 'errorOnMax', '"name": null')):
+                              '"bad"', 'nochildkey', 'errorOnMax', '"name": null', '"scalar"', '"item"', '"name": ""',
+                              '"description"')):
         return True
+    for _, _, st in static_steps(prog):
+        if isinstance(st, dict) and not isinstance(st.get('name'), str):
+            return True
     return False
 
 
@@ -158,7 +163,8 @@ def monitor_run_errors(prog, obs):
     locs = set()
     for _, _, st in static_steps(prog):
         if isinstance(st, dict):
-            locs.add((st.get('name'), st.get('line'), st.get('col')))
+            if st.get('name') is None or isinstance(st.get('name'), str):
+                locs.add((st.get('name'), st.get('line'), st.get('col')))
         else:
             locs.add((st, None, None))
     txt = json.dumps(prog)
